@@ -10,7 +10,7 @@
    detector (both tiers are built with -race).  Data-race freedom itself is observed, not
    proved.  The *_refuted / *_necessary theorems show that the hypothesis cannot be dropped:
    the system in which a run writes one shared cell is exactly defect F-C09. *)
-From Eino Require Import Base.Util Model.Isolation Proofs.Isolation.
+From Eino Require Import Base.Util Model.Isolation Model.IsolationEngine Proofs.Isolation Proofs.IsolationDriver Proofs.IsolationEngine.
 
 (* ---- core: runs_non_interfering (system of the property: the record is immutable) ---- *)
 
@@ -48,6 +48,94 @@ Theorem schedule_independent :
     rs1 = rs2.
 Proof. exact Proofs.Isolation.schedule_independent. Qed.
 Print Assumptions schedule_independent.
+
+(* isolation as an INDUCTIVE INVARIANT: in every state reachable by any schedule, the compiled
+   record is the initial one and every run is in a state it can reach alone from its own initial
+   state ([solo_reach]) — no step of any run can bring another run (or itself) anywhere else *)
+Theorem isolation_is_invariant :
+  forall (C R : Type) (step : C -> R -> option R) (c : C) (rs0 : list R) (sched : list nat) g',
+    grun (lift step) sched (c, rs0) = Some g' ->
+    fst g' = c /\ Forall2 (fun r0 r => exists n, iter step c n r0 = Some r) rs0 (snd g').
+Proof. exact isolated_invariant. Qed.
+Print Assumptions isolation_is_invariant.
+
+Theorem isolation_preserved_by_every_step :
+  forall (C R : Type) (step : C -> R -> option R) (c : C) (rs0 : list R) g i g',
+    isolated C R step c rs0 g -> gstep (lift step) i g = Some g' -> isolated C R step c rs0 g'.
+Proof. exact isolated_step. Qed.
+Print Assumptions isolation_preserved_by_every_step.
+
+(* the driver of the correspondence check (Corr/C09.v): the observed interleaving is followed
+   where the model has a step ([gdrive]), the runs are completed ([gfinish]); the steps taken
+   are a schedule, and every run ends where it ends alone *)
+Theorem driver_follows_a_schedule :
+  forall (Sh R : Type) (stepw : Sh -> R -> option (Sh * R)) sched g gf tk,
+    gdrive stepw sched g = (gf, tk) -> grun stepw tk g = Some gf /\ subseq tk sched.
+Proof. intros; split; [eapply gdrive_is_grun|eapply gdrive_subseq]; eauto. Qed.
+Print Assumptions driver_follows_a_schedule.
+
+Theorem driver_result_is_solo_result :
+  forall (C R : Type) (step : C -> R -> option R) (c : C) (rs : list R) sched fuel runs g1 t1 g2 t2,
+    gdrive (lift step) sched (c, rs) = (g1, t1) ->
+    gfinish (lift step) fuel runs g1 = (g2, t2) ->
+    all_final (lift step) g2 = true ->
+    fst g2 = c /\
+    forall i r, nth_error rs i = Some r ->
+      exists r', nth_error (snd g2) i = Some r' /\
+                 forall f, count i (t1 ++ t2) <= f -> run_alone step c f r = Some r'.
+Proof. exact driver_result_is_solo. Qed.
+Print Assumptions driver_result_is_solo_result.
+
+(* ---- the engine (Model/IsolationEngine.v): what the correspondence check evaluates ---- *)
+
+(* any compiled object (graph description), any number of calls (input, options, step limit),
+   any interleaving of their supersteps: when all have returned, each call has the observable
+   (rendered result, node-level events, message future) of the same call made alone *)
+Theorem engine_concurrent_result_is_solo_result :
+  forall (c : cobj) (ks : list call) sched c' rs',
+    grun (lift estep) sched (c, map (einit c) ks) = Some (c', rs') ->
+    all_final (lift estep) (c', rs') = true ->
+    c' = c /\
+    forall i k, nth_error ks i = Some k ->
+      exists r', nth_error rs' i = Some r' /\
+                 forall fuel, count i sched <= fuel ->
+                   erun c (S fuel) k = cobs k r' /\ erun c (S fuel) k <> None.
+Proof. exact engine_concurrent_equals_solo. Qed.
+Print Assumptions engine_concurrent_result_is_solo_result.
+
+(* exactly what Corr/C09.v [model_runs_engine] computes equals the solo predictions *)
+Theorem engine_check_compares_with_solo :
+  forall (c : cobj) (ks : list call) sched fuel g1 t1 g2 t2,
+    gdrive (lift estep) sched (c, map (einit c) ks) = (g1, t1) ->
+    gfinish (lift estep) fuel (seq 0 (List.length ks)) g1 = (g2, t2) ->
+    all_final (lift estep) g2 = true ->
+    forall i k, nth_error ks i = Some k ->
+      exists r', nth_error (snd g2) i = Some r' /\
+                 forall f, count i (t1 ++ t2) <= f -> erun c (S f) k = cobs k r'.
+Proof. exact engine_driver_is_solo. Qed.
+Print Assumptions engine_check_compares_with_solo.
+
+(* a run has no step enabled exactly when it has returned: a complete interleaving is one in
+   which every call has a result (no run can be stuck without one) *)
+Theorem engine_final_iff_returned : forall c r, estep c r = None <-> rs_res r <> None.
+Proof. exact estep_none_iff. Qed.
+Print Assumptions engine_final_iff_returned.
+
+(* the option map and the step limit a call brought are the ones it keeps, whatever runs beside it *)
+Theorem engine_call_options_fixed :
+  forall (c : cobj) (ks : list call) sched c' rs',
+    grun (lift estep) sched (c, map (einit c) ks) = Some (c', rs') ->
+    forall i k r', nth_error ks i = Some k -> nth_error rs' i = Some r' ->
+      rs_opts r' = rs_opts (einit c k) /\ rs_max r' = rs_max (einit c k).
+Proof. exact engine_options_fixed. Qed.
+Print Assumptions engine_call_options_fixed.
+
+(* any-predecessor graphs: every call returns within (its step limit + 1) supersteps, so the
+   fuel of the solo prediction is never the reason for an answer *)
+Theorem engine_any_predecessor_terminates :
+  forall (c : cobj), g_dag (co_graph c) = false -> forall k, erun c (S (rs_max (einit c k))) k <> None.
+Proof. exact engine_pregel_terminates. Qed.
+Print Assumptions engine_any_predecessor_terminates.
 
 (* ---- the general system: steps MAY write a shared store ---- *)
 
@@ -164,3 +252,15 @@ Example general_hypotheses_satisfiable :
   (forall s1 s2 r, (fun _ : option N => tt) s1 = (fun _ : option N => tt) s2 ->
       option_map snd (wstep_local s1 r) = option_map snd (wstep_local s2 r)).
 Proof. exact (conj wstep_local_view_tt wstep_local_reads_nothing). Qed.
+
+(* the engine: three concurrent calls of one compiled graph (a loop with a branch, a failing
+   node, fan-out and join), interleaved superstep by superstep: one succeeds with its own
+   option, one fails in node f, one hits its own runtime step limit — each as it does alone *)
+Example engine_three_calls_interleaved :
+  exists rs', grun (lift estep) ex_sched (ex_obj, map (einit ex_obj) [ex_call1; ex_call2; ex_call3]) = Some (ex_obj, rs') /\
+    all_final (lift estep) (ex_obj, rs') = true /\
+    map (fun r => option_map fst (eobs false r)) rs' =
+      [Some "ok:V{<tSELF> n=2 lim=2 h=({p0=V{<tSELF> n=2 lim=2 h=in2>a[o=d0]>w>w>f>p0}})>j}"%string;
+       Some "err:node:f"%string; Some "err:maxsteps"%string] /\
+    erun ex_obj 31 ex_call1 = option_map (fun r => match eobs false r with Some o => o | None => (""%string, []) end) (nth_error rs' 0).
+Proof. exact ex_interleaved. Qed.
